@@ -692,4 +692,117 @@ Qed.
 End Processed.
 End Pair.
 
+(* ------------------------------------------------------------------ *)
+(* the kernels: overlap / moments (Model/MomentInt.v)                   *)
+(* ------------------------------------------------------------------ *)
+(* one axis: the E-functional value that (B1) reads as
+   int (x-C)^k (x-A)^i (x-B)^j exp(-alpha (x-A)^2) exp(-beta (x-B)^2) dx  (C01_table_exact) *)
+Definition mom1 (Cx Ax Bx alpha beta : F) (k i j : nat) : F :=
+  base K Ax Bx alpha beta
+  * T3 K (1 / twop K alpha beta) (PA K Ax Bx alpha beta) (PB K Ax Bx alpha beta) (PC K Ax Bx Cx alpha beta) k i j.
+
+Definition Imom (Cx Cy Cz : F) (o : comp) (g1 g2 : gprim) : F :=
+  mom1 Cx (g_x g1) (g_x g2) (g_a g1) (g_a g2) (cx o) (cx (g_c g1)) (cx (g_c g2))
+  * mom1 Cy (g_y g1) (g_y g2) (g_a g1) (g_a g2) (cy o) (cy (g_c g1)) (cy (g_c g2))
+  * mom1 Cz (g_z g1) (g_z g2) (g_a g1) (g_a g2) (cz o) (cz (g_c g1)) (cz (g_c g2)).
+Definition Iov : gprim -> gprim -> F := Imom 0 0 0 (0, 0, 0)%nat.
+
+Lemma mom1_sym Cx Ax Bx alpha beta k i j : mom1 Cx Ax Bx alpha beta k i j = mom1 Cx Bx Ax beta alpha k j i.
+Proof.
+  unfold mom1. rewrite (T3_swap K Kf).
+  assert (Ep : psum K beta alpha = psum K alpha beta) by (unfold psum; ring).
+  assert (Ew : Pw K Bx Ax beta alpha = Pw K Ax Bx alpha beta).
+  { unfold Pw. rewrite Ep. f_equal. ring. }
+  assert (Et : twop K beta alpha = twop K alpha beta) by (unfold twop; now rewrite Ep).
+  assert (Eb : base K Bx Ax beta alpha = base K Ax Bx alpha beta).
+  { unfold base, hmean. rewrite Ep. f_equal. f_equal. f_equal.
+    transitivity (beta * alpha / psum K alpha beta * ((Ax - Bx) * (Ax - Bx))); [ring|].
+    f_equal. f_equal. ring. }
+  rewrite Eb, Et. unfold PA, PB, PC. now rewrite Ew.
+Qed.
+
+Lemma Imom_sym Cx Cy Cz o g1 g2 : Imom Cx Cy Cz o g1 g2 = Imom Cx Cy Cz o g2 g1.
+Proof.
+  unfold Imom.
+  rewrite (mom1_sym Cx (g_x g1)), (mom1_sym Cy (g_y g1)), (mom1_sym Cz (g_z g1)). reflexivity.
+Qed.
+
+Lemma omax_ge o orders : In o orders ->
+  (cx o <= omax orders)%nat /\ (cy o <= omax orders)%nat /\ (cz o <= omax orders)%nat.
+Proof.
+  induction orders as [|[[ox oy] oz] r IH]; intros Hin; [destruct Hin|].
+  cbn [omax fold_right]. fold (omax r). destruct Hin as [<-|Hin].
+  - cbn [cx cy cz fst snd]. lia.
+  - specialize (IH Hin). lia.
+Qed.
+
+(* exponent pairs whose sum can be divided by *)
+Definition exps_ok (sa sb : shell F) : Prop :=
+  forall alpha beta, In alpha (s_exps sa) -> In beta (s_exps sb) -> psum K alpha beta <> 0.
+
+Section MomentKernel.
+Variables (Cx Cy Cz : F) (orders : list comp) (sa sb : shell F).
+Hypothesis H2 : 1 + 1 <> 0.
+Hypothesis Hoka : comps_ok sa.
+Hypothesis Hokb : comps_ok sb.
+Hypothesis Hexp : exps_ok sa sb.
+
+Definition Jmm (o : comp) (alpha beta : F) (ca cb : comp) : F :=
+  prim3 K (table K (s_x sa) (s_x sb) Cx alpha beta (s_l sa) (s_l sb) (omax orders),
+           table K (s_y sa) (s_y sb) Cy alpha beta (s_l sa) (s_l sb) (omax orders),
+           table K (s_z sa) (s_z sb) Cz alpha beta (s_l sa) (s_l sb) (omax orders)) o ca cb.
+
+Lemma mm_block_pfJ :
+  mm_block K Cx Cy Cz orders sa sb = map (fun o => block_of K sa sb (pfJ sa sb (Jmm o))) orders.
+Proof.
+  unfold mm_block. cbv zeta. apply map_ext. intros o. apply block_of_ext. intros ca cb.
+  unfold tabs, pfJ. rewrite map_map. apply map_ext. intros beta. rewrite map_map. reflexivity.
+Qed.
+
+Lemma Jmm_spec o alpha beta ia ib :
+  In o orders -> In alpha (s_exps sa) -> In beta (s_exps sb) -> (ia < ncomp sa)%nat -> (ib < ncomp sb)%nat ->
+  Jmm o alpha beta (compi sa ia) (compi sb ib) = Imom Cx Cy Cz o (gp sa alpha ia) (gp sb beta ib).
+Proof.
+  intros Ho Ha Hb Hia Hib. unfold Jmm, Imom, gp. cbn [g_x g_y g_z g_a g_c].
+  destruct Hoka as [_ Hla]. destruct Hokb as [_ Hlb].
+  pose proof (Hla _ (compi_in sa ia Hia)) as Ca. pose proof (Hlb _ (compi_in sb ib Hib)) as Cb.
+  destruct (omax_ge o orders Ho) as [Ox [Oy Oz]].
+  destruct (compi sa ia) as [[ax ay] az]. destruct (compi sb ib) as [[bx by_] bz].
+  destruct o as [[ox oy] oz]. cbn [cx cy cz fst snd] in *.
+  unfold prim3. rewrite Hapx. unfold mom1.
+  pose proof (Hexp alpha beta Ha Hb) as Hp.
+  rewrite (table_correct K Kf (s_x sa) (s_x sb) Cx alpha beta (s_l sa) (s_l sb) (omax orders) Hp H2
+             ox bx ax Ox (Cb 0%nat) (Ca 0%nat)).
+  rewrite (table_correct K Kf (s_y sa) (s_y sb) Cy alpha beta (s_l sa) (s_l sb) (omax orders) Hp H2
+             oy by_ ay Oy (Cb 1%nat) (Ca 1%nat)).
+  rewrite (table_correct K Kf (s_z sa) (s_z sb) Cz alpha beta (s_l sa) (s_l sb) (omax orders) Hp H2
+             oz bz az Oz (Cb 2%nat) (Ca 2%nat)).
+  reflexivity.
+Qed.
+End MomentKernel.
+
+Notation pblockF := (pblock K 0 (fadd K) (fmul K)).
+Definition outer (f : fdesc -> fdesc -> F) (D1 D2 : list fdesc) : list (list F) :=
+  map (fun d1 => map (fun d2 => f d1 d2) D2) D1.
+
+Lemma overlap_block_blk4 sa sb :
+  overlap_block K sa sb
+  = blk4 (nseg sa) (ncomp sa) (nseg sb) (ncomp sb) (ES sa sb (Jmm 0 0 0 [(0,0,0)%nat] sa sb (0,0,0)%nat)).
+Proof.
+  unfold overlap_block. rewrite mm_block_pfJ. cbn [map hd]. apply block_of_pfJ.
+Qed.
+
+(* (ii) the processed overlap block of two shells = table of pairings of their descriptors *)
+Theorem same_function_pblock_overlap sa sb :
+  1 + 1 <> 0 -> comps_ok sa -> comps_ok sb -> exps_ok sa sb ->
+  pblockF (overlap_block K) (prep K sa) (prep K sb) = outer (pair_spec Iov) (descr sa) (descr sb).
+Proof.
+  intros H2 Hoka Hokb Hexp. unfold pblock, prep. cbn [p_shell p_norm p_T].
+  apply (processed_block_descr sa sb (Jmm 0 0 0 [(0,0,0)%nat] sa sb (0,0,0)%nat) Iov).
+  - intros alpha beta ia ib Ha Hb Hia Hib.
+    apply (Jmm_spec 0 0 0 [(0,0,0)%nat] sa sb H2 Hoka Hokb Hexp); auto. now left.
+  - exact Hoka.
+  - apply overlap_block_blk4.
+Qed.
+
 End P.
